@@ -224,7 +224,9 @@ Ipc::Mem::IdSet::leafTruncate(const Position pos, const size_type idsToKeep)
     Node &node = *valueAddress(pos); // no auto to simplify the asserts() below
     assert(node == std::numeric_limits<Node>::max()); // all 1s
     static_assert(std::is_unsigned<Node>::value, "right shift prepends 0s");
-    node >>= BitsPerLeaf - idsToKeep;
+    // shifting a 64-bit value by 64 (idsToKeep == 0, i.e. a capacity that is a
+    // multiple of BitsPerLeaf) is undefined behavior
+    node = idsToKeep ? (node >> (BitsPerLeaf - idsToKeep)) : 0;
     // node can be anything here, including all 0s and all 1s
 }
 
